@@ -29,6 +29,162 @@ func runeConst(info *types.Info, e ast.Expr) (int64, bool) {
 	return constant.Int64Val(tv.Value)
 }
 
+// intByLetter evaluates an integer expression that may depend on the escape letter held by
+// the variable tag, for one letter: a constant; a local bound once; a lookup `M[tag]` in a
+// package-level map literal with constant keys (a missing key reads as 0); a call `f(tag)` of
+// a function of the package whose body is a switch over its parameter with constant returns
+// and a final constant return.
+func intByLetter(p *core.Program, info *types.Info, defs *eng.LocalDefs, e ast.Expr, tag types.Object, letter rune, depth int) (int64, bool) {
+	if depth > 4 || e == nil {
+		return 0, false
+	}
+	e = eng.Unparen(e)
+	if v, ok := runeConst(info, e); ok {
+		return v, true
+	}
+	isTag := func(x ast.Expr) bool {
+		id, ok := eng.Unparen(x).(*ast.Ident)
+		return ok && tag != nil && info.Uses[id] == tag
+	}
+	switch x := e.(type) {
+	case *ast.Ident:
+		if defs != nil {
+			if d := defs.Def(info.Uses[x]); d != nil {
+				return intByLetter(p, info, defs, d, tag, letter, depth+1)
+			}
+		}
+	case *ast.IndexExpr:
+		id, ok := eng.Unparen(x.X).(*ast.Ident)
+		if !ok || !isTag(x.Index) {
+			return 0, false
+		}
+		v, ok := info.Uses[id].(*types.Var)
+		if !ok || v.Parent() != v.Pkg().Scope() {
+			return 0, false
+		}
+		for _, f := range p.Pkg("parser/lexer").Syntax {
+			for _, d := range f.Decls {
+				gd, ok := d.(*ast.GenDecl)
+				if !ok {
+					continue
+				}
+				for _, sp := range gd.Specs {
+					vs, ok := sp.(*ast.ValueSpec)
+					if !ok || len(vs.Names) != 1 || len(vs.Values) != 1 || info.Defs[vs.Names[0]] != types.Object(v) {
+						continue
+					}
+					cl, ok := eng.Unparen(vs.Values[0]).(*ast.CompositeLit)
+					if !ok {
+						return 0, false
+					}
+					if _, isMap := info.TypeOf(cl).Underlying().(*types.Map); !isMap {
+						return 0, false
+					}
+					// the map must never be written
+					written := false
+					for _, fd := range p.FuncDecls("parser/lexer") {
+						if fd.Body == nil {
+							continue
+						}
+						ast.Inspect(fd.Body, func(n ast.Node) bool {
+							if as, ok := n.(*ast.AssignStmt); ok {
+								for _, l := range as.Lhs {
+									base := eng.Unparen(l)
+									if ix, ok := base.(*ast.IndexExpr); ok {
+										base = eng.Unparen(ix.X)
+									}
+									if bid, ok := base.(*ast.Ident); ok && info.Uses[bid] == types.Object(v) {
+										written = true
+									}
+								}
+							}
+							return true
+						})
+					}
+					if written {
+						return 0, false
+					}
+					for _, el := range cl.Elts {
+						kv, ok := el.(*ast.KeyValueExpr)
+						if !ok {
+							return 0, false
+						}
+						k, ok1 := runeConst(info, kv.Key)
+						val, ok2 := runeConst(info, kv.Value)
+						if !ok1 || !ok2 {
+							return 0, false
+						}
+						if rune(k) == letter {
+							return val, true
+						}
+					}
+					return 0, true
+				}
+			}
+		}
+	case *ast.CallExpr:
+		if len(x.Args) != 1 || !isTag(x.Args[0]) {
+			return 0, false
+		}
+		fn := eng.CalleeOf(info, x)
+		if fn == nil {
+			return 0, false
+		}
+		_, hfd := p.DeclOf(fn)
+		if hfd == nil || hfd.Body == nil || hfd.Type.Params == nil || hfd.Type.Params.NumFields() != 1 || len(hfd.Type.Params.List[0].Names) != 1 {
+			return 0, false
+		}
+		param := info.Defs[hfd.Type.Params.List[0].Names[0]]
+		for _, st := range hfd.Body.List {
+			switch s := st.(type) {
+			case *ast.ReturnStmt:
+				if len(s.Results) != 1 {
+					return 0, false
+				}
+				return runeConst(info, s.Results[0])
+			case *ast.SwitchStmt:
+				tid, ok := eng.Unparen(s.Tag).(*ast.Ident)
+				if s.Tag == nil || s.Init != nil || !ok || info.Uses[tid] != param {
+					return 0, false
+				}
+				var hit, def *ast.CaseClause
+				for _, c := range s.Body.List {
+					cc := c.(*ast.CaseClause)
+					if cc.List == nil {
+						def = cc
+					}
+					for _, ex := range cc.List {
+						k, ok := runeConst(info, ex)
+						if !ok {
+							return 0, false
+						}
+						if rune(k) == letter {
+							hit = cc
+						}
+					}
+				}
+				if hit == nil {
+					hit = def
+				}
+				if hit == nil {
+					continue
+				}
+				if len(hit.Body) != 1 {
+					return 0, false
+				}
+				rs, ok := hit.Body[0].(*ast.ReturnStmt)
+				if !ok || len(rs.Results) != 1 {
+					return 0, false
+				}
+				return runeConst(info, rs.Results[0])
+			default:
+				return 0, false
+			}
+		}
+	}
+	return 0, false
+}
+
 func escapeRules(p *core.Program, r *core.Report) {
 	info := p.Pkg("parser/lexer").TypesInfo
 	// ---- the decoder: the function with a switch whose single-value cases assign a rune constant
@@ -203,6 +359,34 @@ func escapeRules(p *core.Program, r *core.Report) {
 					}
 					return true
 				})
+				// the digit count as a function of the letter: `n := hexEscapeLen[c]`, `n := hexLen(c)`
+				if tid, ok := eng.Unparen(sw.Tag).(*ast.Ident); ok {
+					tagObj := info.Uses[tid]
+					for _, c := range sw.Body.List {
+						cc := c.(*ast.CaseClause)
+						ast.Inspect(cc, func(m ast.Node) bool {
+							as, ok := m.(*ast.AssignStmt)
+							if !ok || len(as.Lhs) != 1 || len(as.Rhs) != 1 {
+								return true
+							}
+							switch eng.Unparen(as.Rhs[0]).(type) {
+							case *ast.IndexExpr, *ast.CallExpr:
+							default:
+								return true
+							}
+							for _, ex := range cc.List {
+								if ch, ok := runeConst(info, ex); ok {
+									if _, set := decDigits[rune(ch)]; !set {
+										if k, ok := intByLetter(p, info, nil, as.Rhs[0], tagObj, rune(ch), 0); ok {
+											decDigits[rune(ch)] = k
+										}
+									}
+								}
+							}
+							return true
+						})
+					}
+				}
 				if defaultK != nil {
 					for _, c := range sw.Body.List {
 						cc := c.(*ast.CaseClause)
@@ -262,18 +446,23 @@ func escapeRules(p *core.Program, r *core.Report) {
 			nums := map[rune]scanNum{}
 			singles := map[rune]bool{}
 			q := false
+			sdefs := eng.SingleDefs(info, fd.Body)
+			var tagObj types.Object
+			if tid, ok := eng.Unparen(sw.Tag).(*ast.Ident); ok {
+				tagObj = info.Uses[tid]
+			}
 			for _, c := range sw.Body.List {
 				cc := c.(*ast.CaseClause)
-				var num *scanNum
+				// the digit-run call of the clause: (first rune, base, count); base and count
+				// may depend on the letter (`width := escapeDigits(ch)`)
+				var numCall *ast.CallExpr
 				ast.Inspect(cc, func(m ast.Node) bool {
 					call, ok := m.(*ast.CallExpr)
 					if !ok || len(call.Args) != 3 {
 						return true
 					}
-					b, ok1 := runeConst(info, call.Args[1])
-					k, ok2 := runeConst(info, call.Args[2])
-					if ok1 && ok2 {
-						num = &scanNum{b, k}
+					if _, ok1 := runeConst(info, call.Args[1]); ok1 {
+						numCall = call
 					}
 					return true
 				})
@@ -285,11 +474,15 @@ func escapeRules(p *core.Program, r *core.Report) {
 						}
 						continue
 					}
-					if num != nil {
-						nums[rune(ch)] = *num
-					} else {
-						singles[rune(ch)] = true
+					if numCall != nil {
+						b, ok1 := intByLetter(p, info, sdefs, numCall.Args[1], tagObj, rune(ch), 0)
+						k, ok2 := intByLetter(p, info, sdefs, numCall.Args[2], tagObj, rune(ch), 0)
+						if ok1 && ok2 {
+							nums[rune(ch)] = scanNum{b, k}
+							continue
+						}
 					}
+					singles[rune(ch)] = true
 				}
 			}
 			if len(nums) >= 3 && len(nums)+len(singles) > len(scanDigits)+len(scanSingles) {
